@@ -295,9 +295,32 @@ func (ba *boundAnalysis) rawValues(fn *ssa.Function) map[ssa.Value]*rawInfo {
 }
 
 type fnState struct {
-	ba  *boundAnalysis
-	fn  *ssa.Function
-	raw map[ssa.Value]*rawInfo
+	ba   *boundAnalysis
+	fn   *ssa.Function
+	raw  map[ssa.Value]*rawInfo
+	wrap map[ssa.Value]string // results of +,*,<< computed on a still unbounded input value (may have wrapped)
+}
+
+// wrapSuspect: v is, or merely converts / further combines, an arithmetic result that may have wrapped.
+func (s *fnState) wrapSuspect(v ssa.Value, depth int) string {
+	if depth > 10 || v == nil {
+		return ""
+	}
+	if w, ok := s.wrap[v]; ok {
+		return w
+	}
+	switch x := v.(type) {
+	case *ssa.Convert:
+		return s.wrapSuspect(x.X, depth+1)
+	case *ssa.ChangeType:
+		return s.wrapSuspect(x.X, depth+1)
+	case *ssa.BinOp:
+		if w := s.wrapSuspect(x.X, depth+1); w != "" {
+			return w
+		}
+		return s.wrapSuspect(x.Y, depth+1)
+	}
+	return ""
 }
 
 func (s *fnState) isBounded(v ssa.Value, G valSet) bool {
@@ -603,7 +626,7 @@ func smallByType(t types.Type) bool {
 // analyze runs the per-function dataflow. With report=false it only updates summaries and
 // returns whether any summary changed; with report=true it appends sink verdicts.
 func (ba *boundAnalysis) analyze(fn *ssa.Function, report bool) bool {
-	s := &fnState{ba: ba, fn: fn}
+	s := &fnState{ba: ba, fn: fn, wrap: map[ssa.Value]string{}}
 	s.raw = ba.rawValues(fn)
 	in := map[*ssa.BasicBlock]valSet{}
 	visited := map[*ssa.BasicBlock]bool{}
@@ -628,6 +651,11 @@ func (ba *boundAnalysis) analyze(fn *ssa.Function, report bool) bool {
 					continue
 				}
 				ok := s.isBounded(su.operand, G)
+				if w := s.wrapSuspect(su.operand, 0); w != "" && ok {
+					// bounded only through a check on a value that was computed by arithmetic on the unchecked input
+					ok = false
+					ri = &rawInfo{why: ri.why + "; " + w, intrinsic: true}
+				}
 				if emit {
 					ba.reports = append(ba.reports, sinkReport{fn: fn, instr: instr, kind: su.kind, operand: su.operand, target: su.target, origin: ri.why, ok: ok})
 				}
@@ -635,6 +663,22 @@ func (ba *boundAnalysis) analyze(fn *ssa.Function, report bool) bool {
 				addBounded(G, su.operand)
 			}
 			switch x := instr.(type) {
+			case *ssa.BinOp:
+				if x.Op == token.ADD || x.Op == token.MUL || x.Op == token.SHL {
+					for _, opnd := range []ssa.Value{x.X, x.Y} {
+						ri := s.raw[opnd]
+						if !ri.real() || s.isBounded(opnd, G) {
+							continue
+						}
+						// widening an unsigned value before adding a constant cannot wrap
+						if cv, ok := opnd.(*ssa.Convert); ok && widensUnsigned(cv) {
+							continue
+						}
+						if _, had := s.wrap[x]; !had {
+							s.wrap[x] = "the value is the result of " + x.Op.String() + " on the still unchecked input (" + valueLabel(opnd) + "), which can wrap around before the bound check"
+						}
+					}
+				}
 			case *ssa.Store:
 				if fv := fieldVar(x.Addr); fv != nil {
 					if ri := s.raw[x.Val]; ri.real() && !s.isBounded(x.Val, G) {
